@@ -172,7 +172,7 @@ pub enum StepErr {
     Violation(Fail),
 }
 
-const ARRIVE: Duration = Duration::from_secs(10);
+const ARRIVE: Duration = Duration::from_secs(6);
 
 impl Run {
     pub fn new(initial: usize, max: usize, njobs: usize) -> Result<Run, StepErr> {
@@ -230,7 +230,7 @@ impl Run {
     fn recv(&mut self) -> Result<Ev, StepErr> {
         self.events
             .recv_timeout(ARRIVE)
-            .map_err(|_| StepErr::Trace("a thread did not reach its next probe within 10 s".into()))
+            .map_err(|_| StepErr::Trace("a thread did not reach its next probe within 6 s".into()))
     }
 
     fn expect_new_worker(&mut self) -> Result<(), StepErr> {
@@ -276,7 +276,27 @@ impl Run {
     fn dispatch(&mut self) -> Result<(), StepErr> {
         let k = self.queue.min(self.in_recv);
         for _ in 0..k {
-            match self.recv()? {
+            let ev = match self.events.recv_timeout(ARRIVE) {
+                Ok(ev) => ev,
+                Err(_) => {
+                    // a job is queued, a worker waits for one, yet nothing is handed over
+                    let active = self.active.load(Ordering::SeqCst);
+                    if active < self.max {
+                        return Err(StepErr::Violation(Fail::new(
+                            "pool/stranded-job",
+                            format!(
+                                "{} job(s) are queued and a worker is waiting for a job, but none was handed over within {} s while only {} of max {} jobs are active (the queue is not reachable for the waiting worker)",
+                                self.queue,
+                                ARRIVE.as_secs(),
+                                active,
+                                self.max
+                            ),
+                        )));
+                    }
+                    return Err(StepErr::Trace("a waiting worker did not dequeue a queued job".into()));
+                }
+            };
+            match ev {
                 Ev::Park { tid, point: Point::Pool(PoolEventK::WorkerGotJob), release } => {
                     let Some(w) = self.workers.iter_mut().find(|w| w.tid == tid && w.state == WState::InRecv) else {
                         return Err(StepErr::Trace("a thread that was not waiting for a message dequeued one".into()));
@@ -374,7 +394,25 @@ impl Run {
                         let mut need_acc = true;
                         let mut need_got = self.queue.min(self.in_recv);
                         while need_acc || need_got > 0 {
-                            match self.recv()? {
+                            let ev = match self.events.recv_timeout(ARRIVE) {
+                                Ok(ev) => ev,
+                                Err(_) => {
+                                    let active = self.active.load(Ordering::SeqCst);
+                                    if !need_acc && need_got > 0 && active < self.max {
+                                        return Err(StepErr::Violation(Fail::new(
+                                            "pool/stranded-job",
+                                            format!(
+                                                "a job was queued while a worker was waiting for one, but it was not handed over within {} s although only {} of max {} jobs are active",
+                                                ARRIVE.as_secs(),
+                                                active,
+                                                self.max
+                                            ),
+                                        )));
+                                    }
+                                    return Err(StepErr::Trace("a thread did not reach its next probe after the send".into()));
+                                }
+                            };
+                            match ev {
                                 Ev::Park { tid, point: Point::Pool(PoolEventK::WorkerGotJob), release } if need_got > 0 => {
                                     let Some(w) = self.workers.iter_mut().find(|w| w.tid == tid && w.state == WState::InRecv) else {
                                         return Err(StepErr::Trace("a thread that was not waiting dequeued a message".into()));
@@ -640,6 +678,10 @@ fn random_schedules(ctx: &mut Ctx, cases: u32) {
         .prop_map(|(initial, extra, njobs, ch)| (initial, (initial + extra).min(8), njobs, ch));
     let trace_fail = std::cell::RefCell::new(None::<String>);
     let r = pt::check_with(ctx, "c14-random", cases, 400, 120_000, strat, |ctx, (initial, max, njobs, ch)| {
+        if trace_fail.borrow().is_some() {
+            ctx.exclude("random:skipped-after-trace-validation-failure");
+            return Ok(());
+        }
         match run_choices(*initial, *max, *njobs, ch) {
             Ok((path, overlap)) => {
                 ctx.case(if overlap { Some(hash64(&(initial, max, njobs, &path))) } else { None });
